@@ -86,13 +86,18 @@ PROPS["C10"] = dict(
             http_suite("http-swarm-expiry", 0b01011, monitor="mon_c07", count_quick=320),
             ws_suite("ws-swarm-expiry", count_quick=240),
             dict(name="valid-until", harness="valid-until", imports=["Expiry"], case_type="N * N * bool * list (N * bool)",
-                 check="vu_code", monitor="vu_code", count_quick=400, count_thorough=20000, nontrivial_bits=3, shrink=False)],
-    rule="udp/http: the C01/C07 histories, whose cleaning passes are placed one second before, at, and one second after stored deadlines "
+                 check="vu_code", monitor="vu_code", count_quick=400, count_thorough=20000, nontrivial_bits=3, shrink=False),
+            dict(name="http-expiry-realtime", harness="http-expiry-probe", imports=["HttpSysCheck"], case_type="N * N * list (Z * Z)",
+                 check="expiry_probe_code", monitor="expiry_probe_code", count_quick=1, count_thorough=4, nontrivial_bits=3, shrink=False)],
+    rule="http-expiry-realtime: a RUNNING http tracker with cleaning every 6 s and max_peer_age 6 s; a peer announced 3 s after start must be "
+         "there at 8 s (after the cleaning pass at 6 s; its deadline is 9 s) and gone at 14.5 s (after the pass at 12 s) - 15 s of real "
+         "time, every instant at least 1.5 s away from a cleaning pass; udp/http: the C01/C07 histories, whose cleaning passes are placed one second before, at, and one second after stored deadlines "
          "(inline and heap maps, seeders and leechers, re-announces); valid-until: ValidUntil::new/new_with_now/valid on the real code under the "
          "mock clock for edge and random (sample, age) pairs, probed at deadline-2..deadline+1, 0, 2^32-2, 2^32-1; non-trivial = history crosses "
          "inline->heap->inline (swarm suites) / sample+age exceeds u32::MAX (valid-until)",
     modelled="ValidUntil arithmetic (Model/Expiry.v) and the three clean functions (PeerMap.v pm_clean, UdpSwarm.v, HttpSwarm.v; ws in WsSwarm.v)",
-    assumptions=["the property is about the worker's time sample; when the cleaning timer fires and how stale the sample is (<= 1 s / 256 polls) are runtime"],
+    assumptions=["the property is about the worker's time sample; when the cleaning timer fires and how stale the sample is are runtime: for the http swarm worker the refresh period is a regenerated fact (1 s) and the "
+                 "real-time suite observes it; the udp socket worker refreshes every 256 polls (up to 12.8 s when idle); the ws worker samples per announce"],
 )
 
 _c20_udp = udp_suite("udp-swarm-reports", 0b11100, monitor="mon_c20", count_quick=400)
@@ -116,8 +121,8 @@ PROPS["C11"] = dict(
     suites=[dict(name="access-list-files", harness="access-list", imports=["AccessListFile"],
                  case_type="bool * list (acl_mode * option string * bool * list (N * bool * bool * bool))",
                  check="acl_code", monitor="acl_code", count_quick=400, count_thorough=20000, nontrivial_bits=3, shrink=False),
-            udp_suite("udp-swarm-acl", 0b01011, monitor="mon_c01", count_quick=240),
-            http_suite("http-swarm-acl", 0b01011, monitor="mon_c07", count_quick=240),
+            udp_suite("udp-swarm-acl", 0b01011, monitor="mon_c10", count_quick=240),
+            http_suite("http-swarm-acl", 0b01011, monitor="mon_c11_http", count_quick=240),
             ws_suite("ws-swarm-acl", count_quick=200),
             dict(name="udp-gate", harness="udp-sys", imports=["UdpSysCheck"], case_type="sys_case",
                  check="udp_sys_code", monitor="udp_sys_code", count_quick=12, count_thorough=120, nontrivial_any=True, shrink=False,
